@@ -30,7 +30,7 @@ def preview_closure(ctx, r, root, bindings, label):
         msg = None
         if e.kind in FORBIDDEN:
             msg = f"`gwf {label}` can reach code that {FORBIDDEN[e.kind]} ({e.detail} at {e.where})"
-        elif e.kind == "FS_WRITE" and e.finfo.key not in STATE_WRITERS:
+        elif e.kind == "FS_WRITE" and e.finfo.key not in STATE_WRITERS and not any(c in STATE_WRITERS for c in e.chain):
             msg = f"`gwf {label}` can reach a file write outside the two state-file saves ({e.detail} at {e.where})"
         elif e.kind == "PROC" and e.finfo.key != "gwf.backends.utils:call":
             msg = f"`gwf {label}` can start a process outside backends.utils.call ({e.detail} at {e.where})"
